@@ -219,11 +219,11 @@ Proof. intros x. change (len (le16 x)) with 2. lia. Qed.
 
 (* PARTIAL (workbooks with no defined name and no ExternSheet table): every sheet is reported in
    workbook order with its exact name, visibility and kind, and the date flag is the workbook's *)
-Theorem xls_parse_encode_partial : forall c wb,
+Theorem xls_parse_encode_partial : forall show_f64 c wb,
   xls_legal c wb = true -> wb_names wb = [] -> lc_xtis c = [] ->
-  xls_parse_workbook (xls_stream c wb) = Ok (mkParsed (wb_sheets wb) [] [] (wb_1904 wb)).
+  xls_parse_workbook show_f64 (xls_stream c wb) = Ok (mkParsed (wb_sheets wb) [] [] (wb_1904 wb)).
 Proof.
-  intros c wb Hl Hnm Hxt. unfold xls_legal in Hl.
+  intros show_f64 c wb Hl Hnm Hxt. unfold xls_legal in Hl.
   apply andb_true_iff in Hl. destruct Hl as [Hl Hpos].
   apply andb_true_iff in Hl. destruct Hl as [Hl Htail].
   apply andb_true_iff in Hl. destruct Hl as [Hl _].
@@ -291,7 +291,7 @@ Proof.
     rewrite (globals_junk (lc_junk3 c) _ _ J3 N4).
     rewrite (records_plain 10 [] (lc_tail c) len_nil_ok Nt).
     reflexivity. }
-  rewrite Hg. cbn [obind xg_sheets xg_names xg_xtis xg_1904].
+  rewrite Hg. unfold xls_resolve. cbn [obind xg_sheets xg_names xg_xtis xg_1904 map_o].
   assert (Hex : existsb (fun pm : N * meta => len (xls_stream c wb) <? fst pm)
                         (map (fun sc => (ls_pos (snd sc), fst sc))
                              (combine (wb_sheets wb) (lc_sheets c))) = false).
@@ -299,7 +299,7 @@ Proof.
     destruct He as [pm [Hin Hlt]]. apply in_map_iff in Hin. destruct Hin as [[s0 ch0] [<- Hin]].
     apply in_combine_r in Hin. cbn [fst snd] in *. rewrite forallb_forall in Hpos. specialize (Hpos _ Hin).
     cbn [fst] in Hlt. lia. }
-  rewrite Hex. unfold xls_resolve. cbn [xg_names map].
+  rewrite Hex.
   rewrite (combine_map_snd_fst _ _ _ ls_pos _ _ (forallb2_length _ _ _ _ _ Hsheets)). reflexivity.
 Qed.
 
@@ -312,6 +312,6 @@ Definition ex_xls_c : xls_choice :=
        [(224, [0; 0; 14; 0]); (1054, [164; 0; 1; 0; 0; 100])] [] [(255, [])] false [9; 8].
 Lemma xls_nonvacuous :
   xls_legal ex_xls_c ex_xls_wb = true /\
-  xls_parse_workbook (xls_stream ex_xls_c ex_xls_wb) =
+  xls_parse_workbook (fun _ => []) (xls_stream ex_xls_c ex_xls_wb) =
   Ok (mkParsed (wb_sheets ex_xls_wb) [] [] true).
 Proof. vm_compute. repeat split. Qed.
